@@ -36,6 +36,47 @@ def run(w: World, rep: Report):
     depend(rep, w, 'rules_c19', ('C19.R3', 'C19.R4'), 'C09.TD19',
            'the configuration of a run is what the embedder supplied for that run: no run writes into a shared default '
            'argument or into the embedder\'s dictionaries (C19.R3/R4 re-evaluated)', floor=20)
+    # R8: an instruction reads the flags of its run (tape.flags), never the VM-wide default table `flags` - except
+    # OP_SET_FLAG, which is documented to copy the default value of the named flag into the tape
+    rep.rule('C09.R8', 'no handler reads the module-level default flag table (only OP_SET_FLAG copies a default into the '
+             'tape): what a run does is decided by the run\'s flags', floor=50)
+    for hname, h in sorted(w.handlers.items()):
+        stored = {x.id for x in ast.walk(h.node) if isinstance(x, ast.Name) and isinstance(x.ctx, ast.Store)} | set(h.params)
+        reads = [x for x in ast.walk(h.node) if isinstance(x, ast.Name) and isinstance(x.ctx, ast.Load) and
+                 x.id in ('flags', 'flags_to_set') and x.id not in stored]
+        ok = not reads or hname == 'OP_SET_FLAG'
+        rep.check('C09.R8', f'functions.{hname}|reads-run-flags-only', ok, line=reads[0].lineno if reads else h.node.lineno,
+                  file=REL, trivial=not reads,
+                  why='' if ok else f'{hname} consults the VM-wide default table `{reads[0].id}`: a flag the embedder turned off '
+                  f'(or on) for this run is ignored here')
+    # R7: what the embedder passes to a run takes precedence over what is registered VM-wide (readme: "contracts passed
+    # to run_script override registered ones"): the merge is `{**registry, **argument}` (or an equivalent in which the
+    # argument comes last); a ChainMap(registry, argument) - first mapping wins - reverses it
+    rep.rule('C09.R7', 'run_script merges the VM-wide registries with the run\'s arguments so that the argument wins '
+             '({**registry, **argument})', floor=2)
+    rs = w.repo.func('functions', 'run_script')
+    for fld, reg in (('contracts', '_contracts'), ('plugins', '_plugins')):
+        stores = [x for x in ast.walk(rs.node) if isinstance(x, ast.Assign) and any(
+            isinstance(t, ast.Attribute) and t.attr == fld for t in x.targets)]
+        if len(stores) != 1:
+            raise AnalysisError(f'run_script: assignment of tape.{fld} not found')
+        v = stores[0].value
+        order = None
+        if isinstance(v, ast.Dict) and all(k is None for k in v.keys):
+            order = [ast.unparse(x) for x in v.values]
+        elif isinstance(v, ast.BinOp) and isinstance(v.op, ast.BitOr):
+            order = [ast.unparse(v.left), ast.unparse(v.right)]
+        elif isinstance(v, ast.Call) and (dotted(v.func) or '').split('.')[-1] == 'ChainMap':
+            order = [ast.unparse(a) for a in reversed(v.args)]      # first mapping wins: effective order is reversed
+        elif isinstance(v, ast.Call) and dotted(v.func) == 'dict' and len(v.args) == 1 and any(k.arg is None for k in v.keywords):
+            order = [ast.unparse(v.args[0])] + [ast.unparse(k.value) for k in v.keywords if k.arg is None]
+        if order is None:
+            raise AnalysisError(f'run_script: merge of {fld} not recognised: `{ast.unparse(v)[:50]}`')
+        ok = order == [reg, fld]
+        rep.check('C09.R7', f'functions.run_script|{fld}-argument-wins', ok, line=stores[0].lineno, file=REL,
+                  why='' if ok else f'tape.{fld} is built as `{ast.unparse(v)[:50]}`: effective precedence {order} - an entry the '
+                  f'embedder supplies for the run is shadowed by the registered one of the same name (or the registry is '
+                  f'left out)')
     depend(rep, w, 'rules_c06', ('C06.R1',), 'C09.TD6',
            'eval_return governs the RETURN of an evaluated script at every nesting level: the flag left by a RETURN is '
            'consumed by EVAL unless eval_return is set, so IF / TRY / LOOP bodies around it behave as at top level '
